@@ -1,11 +1,11 @@
-\* Universe H (quick): one + or * application (a constant that lives in GEKKO model 2 included), then every history of 3 operations among assign / undo / undo on the term / set_gekko towards a new model or towards model 2; both variables with distinct or equal requested names.
+\* Universe H (quick): one + application (a constant that lives in GEKKO model 2 included), then every history of 3 operations among assign / undo / undo on the term / set_gekko towards a new model or towards model 2; both variables with distinct or equal requested names.
 SPECIFICATION Spec
 CONSTANTS
   Consts <- ConstsH
   Scals <- ScalsH
-  Vals <- ValsA
+  Vals <- ValsH
   Inits <- InitsA
-  BinOps <- TwoBin
+  BinOps <- OneBin
   WithSqrt = FALSE
   WithRaw = FALSE
   SameNames = {0, 1}
